@@ -5,6 +5,7 @@
 package c18
 
 import (
+	"context"
 	"fmt"
 	"os"
 	"os/exec"
@@ -168,9 +169,21 @@ func TestRaceDriver(t *testing.T) {
 	if ev.Thorough() {
 		iters = "1500"
 	}
-	cmd := exec.Command(bin, "-test.run", "TestRacePass", "-test.timeout=0")
+	// The free-running pass cannot be interrupted from inside: if the code
+	// under test deadlocks for real (E1 reports that deterministically), the
+	// pass would hang for ever. It gets a generous deadline; passing it makes
+	// the pass incomplete (reported, exit status unaffected), never a verdict.
+	deadline := 15 * time.Minute
+	if ev.Thorough() {
+		deadline = 90 * time.Minute
+	}
+	ctx, cancel := context.WithTimeout(context.Background(), deadline)
+	defer cancel()
+	cmd := exec.CommandContext(ctx, bin, "-test.run", "TestRacePass", "-test.timeout=0")
+	cmd.WaitDelay = 5 * time.Second
 	cmd.Env = append(os.Environ(), "VERIF_MODE=race", "VERIF_RACE_ITERS="+iters, "GORACE=halt_on_error=0 history_size=3")
 	out, err := cmd.CombinedOutput()
+	hung := ctx.Err() != nil
 	sec := R.Sec("race-pass")
 	sec.Exhaustive = false
 	sec.Bounds["iterations_per_scenario"] = iters
@@ -210,6 +223,15 @@ func TestRaceDriver(t *testing.T) {
 	sec.Bounds["scenarios_run"] = ran
 	sec.Bounds["race_reports"] = nrep
 	R.Eval(sec, "race-pass|reports="+strconv.Itoa(nrep), true)
+	if hung {
+		next := "?"
+		if ran < len(scenarios) {
+			next = scenarios[ran].name
+		}
+		sec.CapHit = fmt.Sprintf("free-running pass stopped after %s inside scenario %q (%d of %d scenarios done): the scenario did not return", deadline, next, ran, len(scenarios))
+		R.NotExhaustive("race pass: " + sec.CapHit)
+		return
+	}
 	if ran != len(scenarios) {
 		tail := string(out)
 		if len(tail) > 3000 {
